@@ -25,7 +25,7 @@ import ChessVerif.Proofs.SearchScoreGo
 namespace ChessVerif
 namespace Search
 
-variable {σ π : Type} [PsInv σ]
+variable {σ π : Type} [PsInv σ] {t0 : Bool}
 
 /-- what the `GoSane`-free argument needs of the parameters. -/
 structure AspLaws (c : Comp σ π) : Prop where
@@ -121,9 +121,9 @@ theorem aspiration_aborted (c : Comp σ π) (L : Limits) (fuel : Nat) (idD : Int
 /-- what one iteration's aspiration loop establishes, from a reachable window (guarded by the ghost flag). -/
 theorem aspiration_free (c : Comp σ π) (L : Limits) {Good : Board → Prop} {TTok : σ → Prop} {μ : Board → Nat}
     (hl : Laws c Good) (sl : ScoreLaws c Good TTok μ) (al : AspLaws c) (fuel : Nat) (idD : Int) :
-    ∀ (n : Nat) (alpha beta factor : Score) (s : St σ), Good s.board → TTA TTok s →
+    ∀ (n : Nat) (alpha beta factor : Score) (s : St σ), Good s.board → TTA TTok t0 s →
       (s.nmpOut = false → AspInv alpha beta factor) →
-      TTA TTok (aspiration c L fuel idD n alpha beta factor s).st ∧
+      TTA TTok t0 (aspiration c L fuel idD n alpha beta factor s).st ∧
       (∀ al be sa s', aspiration c L fuel idD n alpha beta factor s = .ok al be sa s' → s'.nmpOut = false →
         InR sa ∧ (idD = 1 → RootOut' c.keys s.board s')) := by
   intro n
@@ -145,9 +145,10 @@ theorem aspiration_free (c : Comp σ π) (L : Limits) {Good : Board → Prop} {T
     have hap := (abort_pv L r.2).1
     have hps := abort_ps L r.2
     have han := abort_nmpOut L r.2
+    have hatt := abort_ttOut L r.2
     have hfa := @abort_false σ _ L r.2
-    generalize abort L r.2 = as at haf hap hps han hfa ⊢
-    have htt2 : TTA TTok as.2 := hrg.1.congr hps han
+    generalize abort L r.2 = as at haf hap hps han hatt hfa ⊢
+    have htt2 : TTA TTok t0 as.2 := hrg.1.congr hps han hatt
     have hback : as.2.nmpOut = false → s.nmpOut = false := fun h => hab.1.mono.a_back (by rw [← han]; exact h)
     split
     · exact ⟨htt2, fun _ _ _ _ h => by cases h⟩
@@ -186,9 +187,9 @@ theorem idLoop_free (c : Comp σ π) (L : Limits) (clock : Clock) {Good : Board 
     (hl : Laws c Good) (sl : ScoreLaws c Good TTok μ) (al : AspLaws c) (fuel : Nat) (b : Board) (hg : Good b)
     (hd : 1 ≤ L.depth) :
     ∀ (n : Nat) (idD : Int) (v : IDVars) (s : St σ), s.board = b → 0 ≤ idD → (n : Int) + idD = 64 →
-      TTA TTok s → (s.nmpOut = false → AspInv v.alpha v.beta 1) →
+      TTA TTok t0 s → (s.nmpOut = false → AspInv v.alpha v.beta 1) →
       (s.nmpOut = false → 2 ≤ idD → v.move ≠ 0 ∨ Final c.keys b) →
-      TTA TTok (idLoop c L clock fuel n idD v s).st ∧
+      TTA TTok t0 (idLoop c L clock fuel n idD v s).st ∧
       ((idLoop c L clock fuel n idD v s).st.nmpOut = false → (idLoop c L clock fuel n idD v s).move = 0 → Final c.keys b) := by
   intro n
   induction n with
@@ -289,12 +290,31 @@ theorem go_free (c : Comp σ π) (L : Limits) (clock : Clock) {Good : Board → 
     TTok (go c L clock fuel e b nodes0).st.ps ∧ ((go c L clock fuel e b nodes0).move = 0 → Final c.keys b) := by
   have h := idLoop_free c L clock hl sl al fuel b hg hd 64 0
     { alpha := -Inf - 1, beta := Inf + 1, score := 0, move := 0, ponder := 0, reads := 0, ppolls := 0, out := [] }
-    (goInit L e b nodes0) rfl (Int.le_refl 0) (by decide) ⟨sl.tt_ok _ htt, fun _ => htt⟩ (fun _ => aspInv_init)
-    (fun _ h => absurd h (by decide))
+    (goInit L e b nodes0) rfl (Int.le_refl 0) (by decide) (t0 := false) ⟨sl.tt_ok _ htt, fun _ => ⟨htt, fun _ => rfl⟩⟩
+    (fun _ => aspInv_init) (fun _ h => absurd h (by decide))
   have hA' : (idLoop c L clock fuel 64 0
     { alpha := -Inf - 1, beta := Inf + 1, score := 0, move := 0, ponder := 0, reads := 0, ppolls := 0, out := [] }
     (goInit L e b nodes0)).st.nmpOut = false := hA
-  exact ⟨sl.tt_nextGen _ (h.1.2 hA'), h.2 hA'⟩
+  exact ⟨sl.tt_nextGen _ (h.1.2 hA').1, h.2 hA'⟩
+
+/-- **`nmpOut = false` implies `ttOut = false`**: in a run (from a state with sound tables) in which the
+    null-move mate branch is never taken below the ply-relative band, every value handed to a table
+    store is ply-consistent.  So the run-level hypothesis of the `ttOut`-guarded theorems
+    (Proofs/SearchScoreFree2.lean, SearchFinalFree2.lean) is implied by the `nmpOut` hypothesis of the
+    theorems of this file; for components with `NmpFloor` it always holds. -/
+theorem go_free_ttOut (c : Comp σ π) (L : Limits) (clock : Clock) {Good : Board → Prop} {TTok : σ → Prop} {μ : Board → Nat}
+    (hl : Laws c Good) (sl : ScoreLaws c Good TTok μ) (al : AspLaws c) (fuel : Nat) (e : Engine σ) (b : Board)
+    (hg : Good b) (nodes0 : Int) (hd : 1 ≤ L.depth) (htt : TTok e.ps)
+    (hA : (go c L clock fuel e b nodes0).st.nmpOut = false) :
+    (go c L clock fuel e b nodes0).st.ttOut = false := by
+  have h := idLoop_free c L clock hl sl al fuel b hg hd 64 0
+    { alpha := -Inf - 1, beta := Inf + 1, score := 0, move := 0, ponder := 0, reads := 0, ppolls := 0, out := [] }
+    (goInit L e b nodes0) rfl (Int.le_refl 0) (by decide) (t0 := false) ⟨sl.tt_ok _ htt, fun _ => ⟨htt, fun _ => rfl⟩⟩
+    (fun _ => aspInv_init) (fun _ h => absurd h (by decide))
+  have hA' : (idLoop c L clock fuel 64 0
+    { alpha := -Inf - 1, beta := Inf + 1, score := 0, move := 0, ponder := 0, reads := 0, ppolls := 0, out := [] }
+    (goInit L e b nodes0)).st.nmpOut = false := hA
+  exact (h.1.2 hA').2 rfl
 
 end Search
 end ChessVerif
